@@ -14,7 +14,8 @@ RULE = ('layer configuration lattice (biort incl. near_sym_b_bp, qshift incl. qs
         'smallest sizes) with values from {1,-1,1e-3,1e3}, plus a dense table and all its 1-pixel perturbations. Oracle: NumPy composition of the '
         'formulas of C08 over the reference dtcwt transform (2x2 mean of the level-1 lowpass, sqrt(re^2+im^2(+colour sum)+b^2)-b, band-major '
         'stacking; two-scale second-order cascade, 49 bands), tolerance 1e-9*(scale+b); every magnitude channel >= 0; documented output shapes '
-        'for every size 2..17 (odd sizes: values against the border-repeated image). distinct_nontrivial = distinct output patterns (hash of the '
+        'for every size 2..17; values on non-conforming sizes against the border-repeated image (first order: last row/column repeated; second '
+        'order: first (8-rem)//2 rows/columns repeated in front and last (9-rem)//2 behind). distinct_nontrivial = distinct output patterns (hash of the '
         'rounded output) over all evaluated inputs')
 ASSUMPTIONS = ['bounded evidence for a non-linear function: all inputs within the deviation bound, not all of R^n (DESIGN section 7)',
                'reference DTCWT operators are extracted from the impulse basis and applied by matrix product; validated against direct reference calls on the dense table']
@@ -56,7 +57,7 @@ def bounds(tier):
 
 
 def required_regimes(tier):
-    return {'layer:1', 'layer:2', 'bp', 'colour', 'C:2', 'k:2', 'k:1', 'k:0', 'dense', 'magbias:0', 'odd_size_values', 'shape_only_sizes', 'size:2'}
+    return {'layer:1', 'layer:2', 'bp', 'colour', 'C:2', 'k:2', 'k:1', 'k:0', 'dense', 'magbias:0', 'odd_size_values', 'extended_size_values', 'size:2'}
 
 
 def _inputs(C, H, W, k2):
@@ -82,6 +83,20 @@ def _inputs(C, H, W, k2):
         rows.append(dv[None, :] + np.eye(P))
         kinds += ['dense'] * P
     return np.concatenate(rows).reshape(-1, C, H, W), kinds
+
+
+def _ext_index(n):
+    """Model of the documented extension to a multiple of 8: the first (8-rem)//2 rows are repeated in front and the last
+    (9-rem)//2 rows behind (for rem = 7 this is the reference's own 'repeat the last row'); indices wrap for tiny inputs."""
+    rem = n % 8
+    if rem == 0:
+        return np.arange(n)
+    before, after = (8 - rem) // 2, (9 - rem) // 2
+    return np.concatenate([np.arange(before) % n, np.arange(n), np.arange(n - after, n) % n])
+
+
+def _extend8(X):
+    return X[:, :, _ext_index(X.shape[2])][:, :, :, _ext_index(X.shape[3])]
 
 
 def run(item):
@@ -142,14 +157,15 @@ def run(item):
             rz = np.round(Z.reshape(Z.shape[0], -1) / max(1e-30, np.abs(Z).max()), 9)
             for hsh in {hash(r.tobytes()) for r in rz[:: max(1, len(rz) // 64)]}:
                 res['ophashes'].append('%x' % (hsh & 0xffffffffffff))
-            if not (conform or (layer == 1 and item['values'])):
+            if layer == 1 and not item['values']:
                 res.regime('shape_only_sizes')
                 continue
-            if not item['values']:
-                continue
             if not conform:
-                res.regime('odd_size_values')
-            R = scat.scat1_ref(X, b, mb, colour) if layer == 1 else scat.scat2_ref(X, b, qs, mb, colour)
+                res.regime('odd_size_values' if layer == 1 else 'extended_size_values')
+            if layer == 1:
+                R = scat.scat1_ref(X, b, mb, colour)
+            else:
+                R = scat.scat2_ref(X if conform else _extend8(X), b, qs, mb, colour)
             xm = np.abs(X).reshape(X.shape[0], -1).max(axis=1)
             tol = 1e-9 * (np.maximum(1.0, 8.0 * xm) + mb)
             dev = np.abs(Z - R).reshape(X.shape[0], -1).max(axis=1)
